@@ -5,7 +5,7 @@ WT=$1; S=$2; OUT=$WT/$S/confirm.txt
 export CARGO_NET_OFFLINE=true CARGO_TARGET_DIR=$WT/target
 cd $WT || exit 2
 git checkout -q -- . 
-DEMO=$(ls $S/demo/run*.sh | head -1)
+DEMO=$(ls $S/demo/run*.sh 2>/dev/null | head -1); [ -n "$DEMO" ] || { echo "no demo/run*.sh in $S"; exit 2; }
 {
 echo "== confirm $WT $S  $(date -u +%FT%TZ)"
 git apply --check $S/patch.diff && echo "patch applies: yes" || { echo "patch applies: NO"; exit 1; }
